@@ -290,7 +290,9 @@ void LVCalc(matrix *X,
         t_old->data[i] = t_->data[i];
     }
     else{
-      if(calcConvergence(t_, t_old) < PLSCONVERGENCE){
+      /* a null latent variable makes the criterion NaN: stop instead of iterating forever */
+      double conv = calcConvergence(t_, t_old);
+      if(conv < PLSCONVERGENCE || _isnan_(conv) || loop >= PLSMAXITER){
         break;
       }
       else{
